@@ -233,7 +233,11 @@ func (r *bodyReader) Read(p []byte) (n int, err error) {
 func (r *bodyReader) Close() error {
 	// Unlike the HTTP/1 and HTTP/2 body readers (at the time of this comment being written),
 	// calling Close concurrently with Read will interrupt the read.
-	r.st.stream.CloseRead()
+	if r.st.stream != nil {
+		// The stream is nil after an over-read of a frame was detected:
+		// the connection is being closed with an error in that case.
+		r.st.stream.CloseRead()
+	}
 	// Make sure that any data that has already been written to bodyReader
 	// cannot be read after it has been closed.
 	r.mu.Lock()
